@@ -97,6 +97,19 @@ func (e *Engine) RunRoot(fn *ssa.Function) (err error) {
 			s.addCover("cover", e.rootKey+"#cover:requires", fn.Pos(), "requires satisfiable")
 		}
 	}
+	e.rootHint = nil
+	if fr.contract != nil && fr.contract.Flags["replay_hint"] != "" {
+		if hx, err := ParseExpr(fr.contract.Flags["replay_hint"]); err == nil {
+			if ht, err := e.evalExprBool(s, fr, hx, nil, nil); err == nil {
+				ht = e.u.DefineAlways("replayhint", ht)
+				e.rootHint = &ht
+			} else {
+				return fmt.Errorf("%s: replay_hint: %v", e.rootKey, err)
+			}
+		} else {
+			return fmt.Errorf("%s: replay_hint: %v", e.rootKey, err)
+		}
+	}
 	if len(fn.Blocks) == 0 {
 		return fmt.Errorf("%s: no body", e.rootKey)
 	}
@@ -615,6 +628,9 @@ func (s *State) havocHeapKey(key, hint string) {
 	n := e.u.Fresh(hint+"."+key, sort)
 	s.heap[key] = n
 	if ax, ok := e.closednessAxiom(n, key, IntLit(int64(e.refCounter))); ok {
+		s.assume(ax)
+	}
+	if ax, ok := e.typedAxiom(n, key); ok {
 		s.assume(ax)
 	}
 }
@@ -1450,6 +1466,7 @@ func (e *Engine) checkEnsures(s *State, fr *Frame, results []Value, ret *ssa.Ret
 			name = fmt.Sprintf("%s#ensures:%s", e.rootKey, cl.Tag)
 		}
 		s.addObligation("ensures", name, cl.Tag, ret.Pos(), t, cl.Src)
+		e.obligations[len(e.obligations)-1].Clause = cl.Expr
 	}
 	// at return#* asserts
 	for _, at := range c.Ats {
